@@ -14,12 +14,14 @@ use crate::util::{Json, Rng, clip, hash_str};
 pub struct C10P;
 pub static C10: C10P = C10P;
 
-pub const LAYOUT_ALPHABET: [&str; 12] = ["x", "1", "(", ")", "+", ";", "#", "\n", " ", "é", "=", "-"];
+pub const LAYOUT_ALPHABET: [&str; 13] = ["x", "1", "(", ")", "+", ";", "#", "\n", " ", "é", "=", "-", "\r"];
 const BLOCK: u64 = 4096;
 const LAYOUTS_PER_PROGRAM: u64 = 20;
 
-const FILLERS: [&str; 14] =
-    [" ", "\n", "\n\n", "#c\n", "#\n", "# é\n", "#\u{1d465}\n", " \n ", "\r\n", "#a\r\n", "\t#\n\n#\n", "", "\t", "#;\n"];
+const FILLERS: [&str; 19] = [
+    " ", "\n", "\n\n", "#c\n", "#\n", "# é\n", "#\u{1d465}\n", " \n ", "\r\n", "#a\r\n", "\t#\n\n#\n", "", "\t", "#;\n", "\u{a0}", "\u{3000}", "\u{b}", "#a\rb\n",
+    "# x\r+ 1\n",
+];
 
 fn maxlen(tier: Tier) -> u32 {
     tier.pick(6, 7)
@@ -52,6 +54,11 @@ fn blank_piece(r: &mut Rng, allow_lf: bool, at_eof: bool, ctx: &mut Ctx) -> Stri
     let n = r.usize(4);
     for _ in 0..n {
         match r.below(if allow_lf { 9 } else { 4 }) {
+            0 if r.chance(1, 6) => {
+                // white space beyond ASCII (and the ASCII ones that are easy to forget)
+                s.push(['\u{a0}', '\u{3000}', '\u{2003}', '\u{b}', '\u{c}', '\u{1680}'][r.usize(6)]);
+                ctx.count("filler:unusual-white-space");
+            }
             0 => s.push(' '),
             1 => s.push('\t'),
             2 => s.push_str("  "),
@@ -65,7 +72,7 @@ fn blank_piece(r: &mut Rng, allow_lf: bool, at_eof: bool, ctx: &mut Ctx) -> Stri
                 ctx.count("filler:empty-comment");
             }
             6 => {
-                s.push_str(["# note\n", "#x = 1; y\n", "# ( + ;\n"][r.usize(3)]);
+                s.push_str(["# note\n", "#x = 1; y\n", "# ( + ;\n", "# a\rb\n", "# was 4, then\r+ 1\n", "#\r\n"][r.usize(6)]);
                 ctx.count("filler:ascii-comment");
             }
             7 => {
@@ -286,7 +293,7 @@ impl Prop for C10P {
                 sec("generated-programs", tier.pick(2_500, 50_000)),
                 sec("token-soups", tier.pick(1_500, 30_000)),
             ],
-            "20 random re-layouts (spaces, tabs, CR, empty/ASCII/multi-byte comments, comment at end of file, one or several line breaks wherever the layout rule allows, separating line break exchanged with `;`) of corpus programs, generated programs and random token soups; all 28x28 token-kind bigrams x 14 gap fillers judged by the rule; all strings of <=6 (quick) / <=7 (thorough) symbols over a 12-symbol layout alphabet compared with the specification tokenizer; non-trivial = distinct layout text (or string with >=2 tokens)",
+            "20 random re-layouts (spaces, tabs, CR, non-ASCII white space, empty/ASCII/multi-byte comments, comments containing CR, comment at end of file, one or several line breaks wherever the layout rule allows, separating line break exchanged with `;`) of corpus programs, generated programs and random token soups; all 28x28 token-kind bigrams x 19 gap fillers (incl. non-ASCII white space, vertical tab, comments containing a bare CR) judged by the rule; all strings of <=6 (quick) / <=7 (thorough) symbols over a 13-symbol layout alphabet compared with the specification tokenizer; non-trivial = distinct layout text (or string with >=2 tokens)",
         );
         p.assumptions = vec![
             "the layout rule is DESIGN.md A.2: a line break between tokens A and B is a terminator iff A can end and B can start an expression (`;` counts as both); a terminator directly after `}` is a don't-care".into(),
